@@ -24,13 +24,42 @@ func (fv *FV) lockEffect(st *State, spec *FuncSpec, args []Term, pos token.Pos) 
 			}
 			st.held[args[0].S] = false
 		}
+	case "sync.RWMutex.Lock":
+		if len(args) > 0 {
+			if st.held[args[0].S] || st.held["R:"+args[0].S] {
+				fv.oblige(st, "lock", "reentrant", pos, tFalse, "Lock while already held (sync.RWMutex is not reentrant)")
+			}
+			st.held[args[0].S] = true
+		}
+	case "sync.RWMutex.Unlock":
+		if len(args) > 0 {
+			if !st.held[args[0].S] {
+				fv.oblige(st, "lock", "unlock-unheld", pos, tFalse, "Unlock of a mutex not held")
+			}
+			st.held[args[0].S] = false
+		}
+	case "sync.RWMutex.RLock":
+		if len(args) > 0 {
+			// recursive read locking deadlocks as soon as a writer queues between the two RLocks
+			if st.held[args[0].S] || st.held["R:"+args[0].S] {
+				fv.oblige(st, "lock", "reentrant-read", pos, tFalse, "RLock while the mutex is already held by this activation (recursive read locking can deadlock with a pending writer)")
+			}
+			st.held["R:"+args[0].S] = true
+		}
+	case "sync.RWMutex.RUnlock":
+		if len(args) > 0 {
+			if !st.held["R:"+args[0].S] {
+				fv.oblige(st, "lock", "runlock-unheld", pos, tFalse, "RUnlock of a mutex not read-held")
+			}
+			st.held["R:"+args[0].S] = false
+		}
 	}
 }
 
 // guardCheckImpl: guarded_by discipline. m is the SSA value of a map being read, written or ranged
 // over. If it was loaded from a guarded field (or guarded package variable), the guarding mutex
 // must be held on this path (ghost state `held`, maintained by the Lock/Unlock contracts).
-func (fv *FV) guardCheckImpl(st *State, m ssa.Value, pos token.Pos) {
+func (fv *FV) guardCheckImpl(st *State, m ssa.Value, pos token.Pos, write bool) {
 	ld, ok := m.(*ssa.UnOp)
 	if !ok {
 		return
@@ -83,6 +112,9 @@ func (fv *FV) guardCheckImpl(st *State, m ssa.Value, pos token.Pos) {
 	for k, h := range st.held {
 		if h && k == mutexTerm.S {
 			held = true
+		}
+		if h && !write && k == "R:"+mutexTerm.S {
+			held = true // a read lock suffices for reading
 		}
 	}
 	goal := tTrue
